@@ -34,6 +34,10 @@ claim('C09', 'Mixed: the opcode classification is decided completely for the run
       'opcode._inline_cache_entries); block partition/successor claims are checked on a corpus of standard-library code objects against an independent ground truth '
       '(bounded); contracts on FlowInfo/utils are being brought under proof.',
       TB + '; WFdis and A-uncond assumed about dis; only Python 3.12 is installed', 'finite case split over the interpreter\'s opcode table + ' + PROOF_PLUS_BOUNDED, '5.C09')
+claim('C11', 'Decided by a complete finite case split for the running interpreter: the dispatcher\'s isinstance chain (read from the current source) evaluated against the '
+      'real class lattice for every subclass of ast.stmt, plus unconditional structural descent of every compound handler; the placement matrix and non-function '
+      'inputs are executed (bounded).', 'the structural induction over the tree is stated, not mechanised; dispatch must remain an isinstance chain (otherwise the check '
+      'reports the structure obligation); ast.parse/inspect.getsource trusted', 'finite case split over every ast.stmt class (E3) + placement matrix executed', '5.C11')
 claim('C13', 'Mixed, mostly proved: find_head, find_headers_and_entries (top-level graphs), find_exiting_and_exits, is_reachable_dfs, exclude_blocks, '
       'jump_targets, is_exiting are proved equal to their definitions for all graphs (incl. external targets, duplicates, back edges); compute_scc/scc, '
       '_doms/_post_doms/_find_dominators_internal and _imm_doms are compared with brute-force path-based definitions on all small digraphs (bounded).',
